@@ -878,3 +878,142 @@ Section R.
     apply normal_spec; [now rewrite bcast_length|now rewrite bcast_length|exact Hs].
   Qed.
 End R.
+
+(* ================= MultivariateNormal, full textbook form (determinant and quadratic form of Sigma = L L^T) ================= *)
+From FJ Require Import Proofs.LeafDerivP Proofs.DetP Proofs.DensDetP.
+
+(* the lower triangle of the stored factor as a matrix (what solve_triangular(lower=True) and the log-det read) *)
+Definition Lf (rows : list (list R)) (i j : nat) : R := if (j <=? i)%nat then nth j (nth i rows []) 0 else 0.
+(* Sigma = L L^T, entry (i, k), dimension d *)
+Definition Sig (rows : list (list R)) (d : nat) (i k : nat) : R := sumR (map (fun j => Lf rows i j * Lf rows k j) (seq 0 d)).
+(* M is the inverse of Sigma:  Sigma M = I  (no inverse is constructed; the theorem holds for every such M) *)
+Definition cov_inverse (rows : list (list R)) (d : nat) (M : nat -> nat -> R) : Prop :=
+  forall i k, (i < d)%nat -> (k < d)%nat ->
+    sumR (map (fun j => Sig rows d i j * M j k) (seq 0 d)) = if Nat.eqb i k then 1 else 0.
+(* b^T M b *)
+Definition quad_form (d : nat) (b : nat -> R) (M : nat -> nat -> R) : R :=
+  sumR (map (fun k => sumR (map (fun i => b i * M i k) (seq 0 d)) * b k) (seq 0 d)).
+
+Lemma sumR_rsum l : sumR l = rsum l.
+Proof. unfold sumR. induction l as [|x l IH]; cbn; [reflexivity|]. now rewrite IH. Qed.
+Lemma rsum_zero {X} (f : X -> R) l : (forall x, f x = 0) -> rsum (map f l) = 0.
+Proof. intros H. induction l as [|x l IH]; cbn; [reflexivity|]. rewrite H, IH. lra. Qed.
+Lemma rdot_seq a b n : (length b <= n)%nat -> rdot a b = rsum (map (fun j => nth j a 0 * nth j b 0) (seq 0 n)).
+Proof.
+  revert b n. induction a as [|x a IH]; intros b n Hn.
+  - cbn [rdot]. rewrite rsum_zero; [reflexivity|]. intros j. destruct j; cbn; lra.
+  - destruct b as [|y b].
+    + cbn [rdot]. rewrite rsum_zero; [reflexivity|]. intros j. destruct j; cbn; lra.
+    + destruct n as [|n]; [cbn in Hn; lia|]. cbn [rdot seq map rsum nth]. rewrite <- seq_shift, map_map.
+      rewrite (IH b n) by (cbn in Hn; lia). reflexivity.
+Qed.
+Lemma nth_firstn_R k m (l : list R) : nth k (firstn m l) 0 = if (k <? m)%nat then nth k l 0 else 0.
+Proof.
+  revert k l. induction m as [|m IH]; intros k l.
+  - cbn. now destruct k.
+  - destruct l as [|x l]; [cbn [firstn]; destruct (k <? S m)%nat; destruct k; reflexivity|].
+    destruct k as [|k]; [reflexivity|]. cbn [firstn nth]. rewrite IH. reflexivity.
+Qed.
+Lemma map_nth_seq {X} (f : R -> X) (l : list R) : map (fun i => f (nth i l 0)) (seq 0 (length l)) = map f l.
+Proof.
+  induction l as [|x l IH]; [reflexivity|]. cbn [length seq map nth]. f_equal. rewrite <- seq_shift, map_map. exact IH.
+Qed.
+Lemma map2_nth_error_sub x loc j : (j < length x)%nat -> length loc = length x ->
+  nth_error (map2 (fun xi li => xi - li) x loc) j = Some (nth j x 0 - nth j loc 0).
+Proof.
+  revert loc j. induction x as [|a x IH]; intros [|b loc] j Hj Hl; cbn in *; try lia; try discriminate.
+  destruct j as [|j]; [reflexivity|]. cbn. apply IH; lia.
+Qed.
+Lemma ln_prodR l : Forall (fun d => 0 < d) l -> 0 < prodR l /\ ln (prodR l) = rsum (map ln l).
+Proof.
+  induction 1 as [|d l Hd Hl [IH1 IH2]]; cbn.
+  - split; [lra|apply ln_1].
+  - fold (prodR l). split; [now apply Rmult_lt_0_compat|]. rewrite ln_mult by assumption. now rewrite IH2.
+Qed.
+
+Section MvnFull.
+  Variable lgam : R -> R.
+  Notation O := (ROpsG lgam).
+
+  Lemma Lf_lower rows i j : (i < j)%nat -> Lf rows i j = 0.
+  Proof. intros H. unfold Lf. replace (j <=? i)%nat with false; [reflexivity|]. symmetry. apply Nat.leb_gt. exact H. Qed.
+  Lemma diag_from_seq rows : forall i,
+    diag_from O i rows = map (fun j => nth (i + j) (nth j rows []) 0) (seq 0 (length rows)).
+  Proof.
+    induction rows as [|r rows IH]; intros i; [reflexivity|].
+    cbn [diag_from length seq map nth]. rewrite Nat.add_0_r. f_equal. rewrite <- seq_shift, map_map, IH.
+    apply map_ext. intros j. cbn [nth]. now replace (S i + j)%nat with (i + S j)%nat by lia.
+  Qed.
+  Lemma diag_is_Lf rows : diag_from O 0 rows = map (fun i => Lf rows i i) (seq 0 (length rows)).
+  Proof. rewrite diag_from_seq. apply map_ext. intros i. unfold Lf. now rewrite Nat.leb_refl. Qed.
+
+  (* (a) det Sigma = (prod L_ii)^2 > 0 and  sum ln L_ii = 1/2 ln det Sigma *)
+  Lemma mvn_det rows : tri_ok rows ->
+    let d := length rows in
+    detF d (Sig rows d) = prodR (diag_from O 0 rows) * prodR (diag_from O 0 rows) /\
+    0 < detF d (Sig rows d) /\
+    rsum (map ln (diag_from O 0 rows)) = / 2 * ln (detF d (Sig rows d)).
+  Proof.
+    intros Hok d.
+    assert (E : detF d (Sig rows d) = prodR (diag_from O 0 rows) * prodR (diag_from O 0 rows)).
+    { rewrite diag_is_Lf. fold d. apply (detF_LLt d (Lf rows)). intros i j Hij _. now apply Lf_lower. }
+    assert (Hp : Forall (fun v => 0 < v) (diag_from O 0 rows)).
+    { apply diag_from_pos. intros j r Hr. cbn [Nat.add]. now apply Hok. }
+    destruct (ln_prodR _ Hp) as [P1 P2].
+    split; [exact E|]. split; [rewrite E; now apply Rmult_lt_0_compat|].
+    rewrite E, ln_mult by assumption. rewrite P2. lra.
+  Qed.
+
+  (* (b) the quadratic form: z^T z = (x - mu)^T M (x - mu) for EVERY M with (L L^T) M = I *)
+  Lemma mvn_quad rows loc x M : length loc = length rows -> length x = length rows -> tri_ok rows ->
+    let d := length rows in
+    cov_inverse rows d M ->
+    rsum (map (fun v => v * v) (mvn_z O rows loc x)) = quad_form d (fun i => nth i x 0 - nth i loc 0) M.
+  Proof.
+    intros Hl Hx Hok d HM. subst d. destruct (mvn_spec lgam rows loc x Hl Hx Hok) as (Hz & Hsolve & _).
+    set (z := mvn_z O rows loc x) in *.
+    assert (Hq := quad_form_F (length rows) (Lf rows) M (fun k => nth k z 0) (fun i => nth i x 0 - nth i loc 0)).
+    cbv beta in Hq. unfold quad_form. rewrite <- Hq.
+    - rewrite <- Hz. rewrite (map_nth_seq (fun v => v * v) z). symmetry. apply sumR_rsum.
+    - intros i Hi.
+      assert (Hr : nth_error rows i = Some (nth i rows [])) by (apply nth_error_nth'; exact Hi).
+      rewrite <- (Hsolve i (nth i rows []) (nth i x 0 - nth i loc 0) Hr) by (apply map2_nth_error_sub; lia).
+      rewrite (rdot_seq _ _ (length rows)) by (rewrite firstn_length; lia).
+      transitivity (rsum (map (fun k => Lf rows i k * nth k z 0) (seq 0 (length rows)))); [apply sumR_rsum|].
+      f_equal. apply map_ext. intros k. rewrite nth_firstn_R. unfold Lf.
+      change (k <? S i)%nat with (k <=? i)%nat. destruct (k <=? i)%nat; lra.
+    - exact HM.
+  Qed.
+
+  (* the textbook multivariate normal log-density *)
+  Lemma mvn_full_spec rows loc x M : length loc = length rows -> length x = length rows -> tri_ok rows ->
+    let d := length rows in
+    cov_inverse rows d M ->
+    mvn_log_prob O rows loc x =
+      Fin (- (1 / 2) * quad_form d (fun i => nth i x 0 - nth i loc 0) M - 1 / 2 * ln (detF d (Sig rows d)) - INR d / 2 * ln (2 * PI)).
+  Proof.
+    intros Hl Hx Hok d HM. destruct (mvn_spec lgam rows loc x Hl Hx Hok) as (_ & _ & E). rewrite E.
+    rewrite (mvn_quad rows loc x M Hl Hx Hok HM). destruct (mvn_det rows Hok) as (_ & _ & D). rewrite D.
+    fold d. f_equal. lra.
+  Qed.
+
+  (* the covariance accessor: covariance = L L^T (entries are dot products of the rows of the stored factor) *)
+  Lemma mvn_cov_R rows : mvn_cov O rows = map (fun r => map (fun r' => rdot r r') rows) rows.
+  Proof. unfold mvn_cov. apply map_ext. intros r. apply map_ext. intros r'. apply dot_R. Qed.
+  Lemma mvn_cov_entry rows i k : let d := length rows in
+    (forall i', length (nth i' rows []) <= d)%nat -> (forall i' j, (i' < j)%nat -> nth j (nth i' rows []) 0 = 0) ->
+    (i < d)%nat -> (k < d)%nat -> nth k (nth i (mvn_cov O rows) []) 0 = Sig rows d i k.
+  Proof.
+    intros d Hlen Hup Hi Hk. rewrite mvn_cov_R.
+    set (f := fun r : list R => map (fun r' => rdot r r') rows).
+    rewrite (nth_indep _ [] (f [])) by (now rewrite map_length). rewrite (map_nth f). unfold f.
+    set (g := fun r' : list R => rdot (nth i rows []) r').
+    rewrite (nth_indep _ 0 (g [])) by (now rewrite map_length). rewrite (map_nth g). unfold g.
+    rewrite (rdot_seq _ _ d) by apply Hlen. unfold Sig. symmetry.
+    transitivity (rsum (map (fun j => Lf rows i j * Lf rows k j) (seq 0 d))); [apply sumR_rsum|]. f_equal. apply map_ext. intros j.
+    unfold Lf. destruct (j <=? i)%nat eqn:E1; destruct (j <=? k)%nat eqn:E2; try reflexivity.
+    - apply Nat.leb_gt in E2. rewrite (Hup k j E2). lra.
+    - apply Nat.leb_gt in E1. rewrite (Hup i j E1). lra.
+    - apply Nat.leb_gt in E1. rewrite (Hup i j E1). lra.
+  Qed.
+End MvnFull.
